@@ -5,7 +5,6 @@ NOT_APPLICABLE = {
     "C11": "relational property over HashMap iteration order, thread/process identity and an f64 pipeline; no contract within reach of Verus/Kani expresses it (DESIGN §4 C11)",
     "C12": "statistical statement over >=200 simulated events about an end-to-end numeric chain measured against an independent forward model; not a per-function contract (DESIGN §4 C12)",
     "C14": "totality/finiteness over a continuous domain through Nelder-Mead, complex arithmetic and transcendentals; Verus leaves floats uninterpreted, CBMC cannot unroll the minimiser (DESIGN §4 C14)",
-    "C15": "partition argument runs through IndexMap, iterator chains with closures and f64 equality; thresholds put any Kani bound below the point where the code does anything (DESIGN §4 C15)",
     "C16": "global optimality of a Newton solve of Kepler's equation over transcendental functions: numerical analysis, not a contract (DESIGN §4 C16)",
     "C17": "bit-for-bit and relative-error claims on f64 loops built from iterator chains; Verus has no float theory and the smallest relevant input is beyond bit-precise CBMC (DESIGN §4 C17)",
 }
@@ -73,6 +72,12 @@ TEXT = {
         "design_ref": "DESIGN.md §4 C13",
         "level_text": "Index layer only: contiguous_ranges is proved to return blocks that cover exactly the occupied wires and in which every two adjacent occupied wires (including 255/0) are adjacent unknowns -- for every occupancy except the full ring, where the obligation fails (recorded known finding); the induction coefficient is proved to depend on the distance only; wire<->pad-column arithmetic is proved.",
         "level_note": _COMMON_NOTE + " Bounded stand-ins: c13_dims (ring index helpers, verbatim text, against the cyclic-range specification) and c13_sym (rotation by whole pad columns and z mirror of four synthetic events through the public API, bit-exact). NOT decided by proof: that the numeric kernels (faer Cholesky, ls_deconvolution, matching) depend only on block-ordered inputs (A-NUMERIC-LOCAL), the z-mirror clause.",
+    },
+    "C15": {
+        "technique": "Verus contracts (multiset views) on the real cluster_spacepoints, its nested best_cluster and largest_cluster; assumed contracts for the Hough accumulator; bounded native runs of clustering and vertexing through the public API",
+        "design_ref": "DESIGN.md §9.8",
+        "level_text": "Proved for every input vector, every minimum size, bin counts and distance: the clusters and the remainder returned by cluster_spacepoints together are exactly the multiset of input points (nothing lost, duplicated or invented), every cluster has at least the minimum number of points, and every point of a cluster after the first lies within the maximum distance of an earlier point of the same cluster (single-linkage connectivity); the position(..).unwrap() of the remainder loop and the accumulator's remove_unchecked precondition never fail.",
+        "level_note": _COMMON_NOTE + " Assumed: contracts of HoughSpaceAccumulator::{add, remove_unchecked, most_popular} over an abstract multiset of points (IndexMap entry API and float trigonometry are outside Verus) and of the accumulator constructor; SpacePoint::distance and quantity comparison are uninterpreted; precondition: the derived float equality of SpacePoint coincides with identity on the input points (no NaN coordinate, no +0/-0 aliasing). Termination is not proved (exec_allows_no_decreases_clause on two functions). NOT proved: the vertexing half (find_vertices is one iterator chain around a Nelder-Mead minimiser) -- partition of the tracks and 'primary only with >= 2 tracks' are checked by the bounded native run c15_vertex only; c15_cluster re-checks the clustering half on synthetic clouds through the public API and thereby exercises the assumed accumulator.",
     },
     "C18": {
         "technique": "Verus contracts on the real DriftTable::at, DriftTables::at and SpacePoint::try_from(Avalanche) over opaque quantities; bounded native grid over the shipped table for the numeric clauses",
